@@ -46,6 +46,30 @@ class TemplateError(Exception):
     pass
 
 
+def _comment_tolerant(pat):
+    """`\\s*` / `\\s+` outside character classes also skip `//` line comments, so that a comment line inserted
+    between two statements does not turn a multi-statement substitution into a lost anchor."""
+    out, i, depth = [], 0, 0
+    while i < len(pat):
+        c = pat[i]
+        if c == '\\' and i + 1 < len(pat):
+            nxt = pat[i + 1]
+            if nxt == 's' and depth == 0 and i + 2 < len(pat) and pat[i + 2] in '*+' and not (i + 3 < len(pat) and pat[i + 3] == '?'):
+                out.append('(?:\\s|//[^\\n]*\\n)' + pat[i + 2])
+                i += 3
+                continue
+            out.append(pat[i:i + 2])
+            i += 2
+            continue
+        if c == '[':
+            depth += 1
+        elif c == ']' and depth > 0:
+            depth -= 1
+        out.append(c)
+        i += 1
+    return ''.join(out)
+
+
 def _parse_sub(arg):
     m = re.match(r'/(.*)/\s*=>\s*(.*?)(?:\s+min=(\d+))?(?:\s+count=(\d+))?\s*$', arg)
     if not m:
@@ -258,7 +282,7 @@ class Unit:
         def apply_subs(text, lst, stage):
             for sb in lst:
                 try:
-                    text, n = re.subn(sb['pat'], sb['rep'], text, count=sb['count'], flags=re.S | re.M)
+                    text, n = re.subn(_comment_tolerant(sb['pat']), sb['rep'], text, count=sb['count'], flags=re.S | re.M)
                 except re.error as ex:
                     raise TemplateError('bad regex %s: %s' % (sb['pat'], ex))
                 item['subs'].append({'stage': stage, 'pat': sb['pat'], 'rep': sb['rep'], 'hits': n})
